@@ -268,7 +268,35 @@ pub fn gen_layer(rng: &mut Rng, idx: usize, pages: &[u16], ncol: u32, big: bool)
 /// a document whose first layer is 150..=200 x 90..=120 cells, nearly all of them in the long (14-byte) form, with every
 /// combination of hidden / locked / alpha-locked and now and then an empty row: more than 300 KB of layer data, the
 /// largest the quantifier allows (about 1 in 400 documents; each costs a second for the embedded preview)
+/// a picture of megabytes on an image layer: the writer cuts layer data into chunks of at most 3,000,000 bytes
+/// (16 bytes of picture header + RGBA bytes in the first one)
+fn gen_huge_image_doc(rng: &mut Rng) -> DocD {
+    let mut d = DocD::single(20, 6);
+    d.layers.clear();
+    d.fonts.push(FontD { slot: 0, name: "Font 0".into(), height: 16, builtin: Some(0), data: vec![], sauce_name: None });
+    let mut base = LayerD::plain(20, 6);
+    base.title = "text".into();
+    for x in 0..20 {
+        base.cells.push(CellD { x, y: rng.usize(6) as i32, ch: 0x41 + x as u32, fg: rng.below(16) as u32, bg: rng.below(8) as u32, attr: 0, fp: 0 });
+    }
+    d.layers.push(base);
+    let mut l = LayerD::plain(20, 6);
+    l.title = "picture".into();
+    l.alpha = rng.bool();
+    l.visible = rng.bool();
+    // RGBA bytes + 16 = exactly one chunk; one pixel more; a little over one chunk; over two chunks
+    let (pw, ph) = *rng.pick(&[(4, 187_499), (4, 187_500), (2, 374_999), (1000, 760), (866, 866), (1300, 1200), (1500, 1000)]);
+    l.image = Some((pw, ph, rng.bytes(8)));
+    l.ox = rng.range(-3, 3) as i32;
+    l.oy = rng.range(-3, 3) as i32;
+    d.layers.push(l);
+    d
+}
+
 fn gen_huge_doc(rng: &mut Rng) -> DocD {
+    if rng.chance(1, 3) {
+        return gen_huge_image_doc(rng);
+    }
     let (w, h) = (rng.range(150, 200) as i32, rng.range(90, 120) as i32);
     let mut d = DocD::single(w, h);
     d.layers.clear();
@@ -381,6 +409,9 @@ impl C07 {
         let d = &case.doc;
         ctx.count("documents", 1);
         ctx.count("layers", d.layers.len() as u64);
+        if d.layers.iter().any(|l| l.image.as_ref().map(|i| i.2.len() == 8 && i.0 * i.1 > 2).unwrap_or(false)) {
+            ctx.count("documents_with_a_picture_of_megabytes", 1);
+        }
         ctx.count("cells", d.layers.iter().map(|l| l.cells.len() as u64).sum());
         ctx.fp(crate::rng::mix(
             (d.w as u64) << 48 | (d.h as u64) << 40 | (d.layers.len() as u64) << 32 | (d.fonts.len() as u64) << 24 | d.palette.as_ref().map(|p| p.len() as u64).unwrap_or(0),
@@ -431,7 +462,7 @@ impl Prop for C07 {
         "C07"
     }
     fn rule(&self) -> &'static str {
-        "documents with 1..=6 layers (about one in 400 documents is a single 150..=200 x 90..=120 layer of long-form cells - over 300 KB of layer data - hidden / locked / alpha-locked in every combination; one in eight above the first an image layer: role Image with a sixel picture of up to 40x30 pixels; sizes 0..=200 x 0..=120, mostly <= 40x20 because every save PNG-encodes a preview; offsets -50..=50; all combinations of visible / locked / position-locked / alpha / alpha-locked; modes normal/chars/attributes; colour tags; transparency; Unicode and 300-character titles; rows ending before and at the layer width; short-form and long-form cells incl. characters > 0xFFFF, colours > 255 and the transparent colour; attribute flags), palettes of 1..=300 colours (also prefixes, the whole, extensions and one-colour variations of the stock DOS palette), font slots from {0,1,2,5,42,100,255,256,300} with built-in pages 0..=42 (also in slot 0: names longer than the SAUCE font field) and custom fonts of height 8/14/16/19/32 (also in slot 0, whose size the preview uses, and also under the stock font's name), every referenced page present, with and without SAUCE, are saved with Buffer::to_bytes(\"icy\", lossles_output) and loaded with Buffer::from_bytes; a field-by-field comparator checks buffer size and modes, every layer property incl. the role (image layers: picture size, scales and RGBA bytes), every cell inside the layer size (invisible cells as invisible only), the palette, every font slot (name, size, length, glyph bytes) and the SAUCE fields. distinct_nontrivial = distinct (size, layer shapes and flags, fonts, palette length) documents"
+        "documents with 1..=6 layers (about one in 400 documents is a single 150..=200 x 90..=120 layer of long-form cells - over 300 KB of layer data - hidden / locked / alpha-locked in every combination - or, one time in three, a text layer under an image layer whose picture is 3 MB to 7.2 MB of RGBA bytes: exactly one writer chunk of 3,000,000 bytes, one pixel more, and over two chunks; one in eight above the first an image layer: role Image with a sixel picture of up to 40x30 pixels; sizes 0..=200 x 0..=120, mostly <= 40x20 because every save PNG-encodes a preview; offsets -50..=50; all combinations of visible / locked / position-locked / alpha / alpha-locked; modes normal/chars/attributes; colour tags; transparency; Unicode and 300-character titles; rows ending before and at the layer width; short-form and long-form cells incl. characters > 0xFFFF, colours > 255 and the transparent colour; attribute flags), palettes of 1..=300 colours (also prefixes, the whole, extensions and one-colour variations of the stock DOS palette), font slots from {0,1,2,5,42,100,255,256,300} with built-in pages 0..=42 (also in slot 0: names longer than the SAUCE font field) and custom fonts of height 8/14/16/19/32 (also in slot 0, whose size the preview uses, and also under the stock font's name), every referenced page present, with and without SAUCE, are saved with Buffer::to_bytes(\"icy\", lossles_output) and loaded with Buffer::from_bytes; a field-by-field comparator checks buffer size and modes, every layer property incl. the role (image layers: picture size, scales and RGBA bytes), every cell inside the layer size (invisible cells as invisible only), the palette, every font slot (name, size, length, glyph bytes) and the SAUCE fields. distinct_nontrivial = distinct (size, layer shapes and flags, fonts, palette length) documents"
     }
     fn meta(&self, ctx: &Ctx) -> Value {
         json!({"floor_evaluations": 500, "floor_distinct": ctx.tier.pick(500u64, 10000u64),
